@@ -11,7 +11,8 @@ from .common import guarded, sym_row, names_for
 
 from ixai.utils.wrappers.base import Wrapper
 from ixai.utils.wrappers import SklearnWrapper, RiverWrapper, TorchWrapper
-from ixai.utils.validators.model import validate_model_function
+from ixai.utils.validators import validate_model_function                      # the public entry point (package level)
+from ixai.utils.validators.model import validate_model_function as _validate_model_function_module_level
 
 ID = 'C14'
 
@@ -75,9 +76,10 @@ class Predictor:
     def __init__(self, env, d, shape, boxed=False):
         self.env, self.d, self.shape, self.boxed = env, d, shape, boxed
         self.inputs = []
+        self.version = 0        # a model that learns between calls: every version is another (uninterpreted) function
 
     def val(self, row, j):
-        return self.env.uf(f"P{j}", self.d)(*row)
+        return self.env.uf(f"P{j}" + (f"_v{self.version}" if self.version else ''), self.d)(*row)
 
     def __call__(self, arr):
         if self.boxed:
@@ -179,6 +181,14 @@ def _single(env, cfg):
         _same_dict(env, 'single_prediction_canonical', out, _canonical(pred, row, cfg['shape']), detail=f"shape {cfg['shape']}")
         env.claim('model_got_one_row_of_d_features', len(pred.inputs) == 1 and pred.inputs[0].shape == (1, cfg['d']))
         env.claim('input_unmodified', list(x.keys()) == names)
+        # the wrapped model learns between two calls: the SAME input (same object, then an equal copy) must be evaluated by
+        # the model as it is now - a wrapper is a view of the model, not a cache of its answers
+        for rep, xin in enumerate((x, dict(x))):
+            pred.version += 1
+            out2 = guarded(env, 'call_dict_again', w, xin)
+            _same_dict(env, 'repeated_input_sees_the_current_model', out2, _canonical(pred, row, cfg['shape']),
+                       detail=f"call {rep + 2} with the same input after the model changed")
+            env.claim('prediction_function_evaluated_at_every_call', len(pred.inputs) == rep + 2)
     finally:
         _restore(tok)
 
@@ -337,6 +347,27 @@ def _dispatch(env, cfg):
             return {'output': 0.0}
         env.claim('plain_function_returned_unchanged', validate_model_function(plain) is plain)
         env.claim('wrapped_function_is_the_given_bound_method', validate_model_function(sk.predict)._prediction_function == sk.predict)
+        for validate in (validate_model_function, _validate_model_function_module_level):
+            # two different bound methods of ONE model object: each is wrapped for itself, in either order
+            dt2, ht2 = DecisionTreeClassifier(), HoeffdingTreeClassifier()
+            for a, b in ((dt2.predict, dt2.predict_proba), (ht2.predict_proba_one, ht2.predict_one)):
+                wa, wb = validate(a), validate(b)
+                env.claim('each_bound_method_of_a_model_gets_its_own_wrapper',
+                          wa is not wb and wa._prediction_function == a and wb._prediction_function == b,
+                          detail=f"{a.__name__} / {b.__name__}")
+            # a Wrapper instance is returned unchanged whatever else it offers (helper methods named like estimator methods)
+
+            class HelpfulWrapper(Wrapper):
+                def __call__(self, x):
+                    return {'output': 1.0}
+
+                def predict(self, x):
+                    return 'decoy'
+                predict_one = predict_proba = predict_proba_one = predict
+            hw = HelpfulWrapper(lambda x: x, None)
+            env.claim('wrapper_subclass_with_helper_methods_returned_unchanged', validate(hw) is hw)
+            env.claim('plain_function_returned_unchanged', validate(plain) is plain)
+            env.claim('wrapper_instance_returned_unchanged', validate(w) is w and validate(rw) is rw)
         try:
             import torch
         except ImportError:
